@@ -158,12 +158,13 @@ ShardStart(s, sh, files, cas, nbytes) ==
   /\ s \in DOMAIN status
   /\ \A i \in 1..Len(files) : FileRecOK(files[i])
   /\ Chk("C02", \A i \in 1..Len(cas) : cas[i].x \in DOMAIN xorbs /\ Ids(cas[i].chunks) = xorbs[cas[i].x])
-  /\ shardOpen' = Put(shardOpen, sh, [files |-> files, cas |-> cas, nbytes |-> nbytes, sess |-> s])
+  /\ shardOpen' = Put(shardOpen, sh, [files |-> files, cas |-> cas, nbytes |-> nbytes, sess |-> s, done |-> "no"])
   /\ UNCHANGED <<clen, content, fsess, salt, status, failed, xorbs, stored, sessPut, recs, finished, dec, up, ptrs, cache>>
 
 ShardEnd(s, sh, res) ==
   /\ sh \in DOMAIN shardOpen
-  /\ IF res = "ok"
+  /\ shardOpen' = [shardOpen EXCEPT ![sh].done = res]
+  /\ IF res \in {"ok", "exists"}          \* "exists": the store already has this very shard (another cache uploaded it)
        THEN /\ LET fl == shardOpen[sh].files IN
                recs' = [h \in (DOMAIN recs) \cup {fl[i].fh : i \in 1..Len(fl)} |->
                           IF \E i \in 1..Len(fl) : fl[i].fh = h
@@ -171,7 +172,7 @@ ShardEnd(s, sh, res) ==
                             ELSE recs[h]]
             /\ up' = [up EXCEPT ![s].shard = @ + shardOpen[sh].nbytes] /\ UNCHANGED failed
        ELSE /\ failed' = [failed EXCEPT ![s] = TRUE] /\ UNCHANGED <<recs, up>>
-  /\ UNCHANGED <<clen, content, fsess, salt, status, xorbs, stored, sessPut, shardOpen, finished, dec, ptrs, cache>>
+  /\ UNCHANGED <<clen, content, fsess, salt, status, xorbs, stored, sessPut, finished, dec, ptrs, cache>>
 
 CacheChunks == UNION {{e[2][i] : i \in 1..Len(e[2])} : e \in cache}
 
@@ -254,6 +255,10 @@ CacheIndex(s, xs) ==
   /\ s \in DOMAIN status
   /\ LET entries == {<<xs[i].x, Ids(xs[i].chunks)>> : i \in 1..Len(xs)} IN
      /\ Chk("C11", status[s] = "ok" => \A x \in sessPut[s] : <<x, xorbs[x]>> \in entries)
+     \* the session's shards are in the local cache afterwards, whether the store took them or already had them
+     /\ Chk("C11", status[s] = "ok" =>
+                     \A sh \in DOMAIN shardOpen : (shardOpen[sh].sess = s /\ shardOpen[sh].done \in {"ok", "exists"}) =>
+                        \A i \in 1..Len(shardOpen[sh].cas) : <<shardOpen[sh].cas[i].x, Ids(shardOpen[sh].cas[i].chunks)>> \in entries)
      /\ cache' = entries
   /\ UNCHANGED <<clen, content, fsess, salt, status, failed, xorbs, stored, sessPut, shardOpen, recs, finished, dec, up, ptrs>>
 
